@@ -95,19 +95,26 @@ class Sched:
 
 
 class SLock:
-    def __init__(self, sched, tids):
-        self.s, self.tids, self.owner = sched, tids, None
+    def __init__(self, sched, tids, reentrant=False):
+        self.s, self.tids, self.owner, self.reentrant, self.depth = sched, tids, None, reentrant, 0
 
     def __enter__(self):
         tid = self.tids[threading.get_ident()]
         if self.owner == tid:
+            if self.reentrant:
+                self.depth += 1
+                return self
             raise Deadlock("self re-entry")
         while self.owner is not None:
             self.s.block(tid, self)
         self.owner = tid
+        self.depth = 1
         return self
 
     def __exit__(self, *a):
+        self.depth -= 1
+        if self.depth > 0:
+            return
         self.owner = None
         with self.s.cv:
             for t, l in list(self.s.blocked.items()):
@@ -121,13 +128,16 @@ class SLock:
         self.__exit__()
 
 
-def run_schedule(make_stores, threads_ops, plan):
-    from operon_ai.state import metabolism as M
+def run_schedule(make_stores, threads_ops, plan, module=None, state_of=None):
+    if module is None:
+        from operon_ai.state import metabolism as M
+    else:
+        M = module
     stores = make_stores()
     sched = Sched(len(threads_ops), plan)
     tids = {}
     for st in stores:
-        st._lock = SLock(sched, tids)
+        st._lock = SLock(sched, tids, reentrant="RLock" in type(st._lock).__name__)
     results = [[None] * len(ops) for ops in threads_ops]
     errors = []
     target_file = M.__file__
@@ -163,7 +173,7 @@ def run_schedule(make_stores, threads_ops, plan):
             t.join(10)
     if any(t.is_alive() for t in ths) or sched.deadlock:
         errors.append("deadlock")
-    state = tuple((s.atp, s.gtp, s.nadh, s._debt) for s in stores)
+    state = tuple((s.atp, s.gtp, s.nadh, s._debt) for s in stores) if state_of is None else tuple(state_of(s) for s in stores)
     return results, state, errors, sched.steps_taken
 
 
